@@ -175,3 +175,7 @@ def run(ctx):
     # local mean-square error O(h^(p+1/2)) and local mean error O(h^(p+1)) at the advertised p (sufficient for strong
     # order p when d = m = 1 and the coefficients are smooth and Lipschitz)
     ctx.guard(c02.r02_6)
+    # strong order 1 of derivative-based Milstein needs the textbook correction term; the operator ForwardSDE derives for
+    # it must be one Jacobian-vector product per diffusion column (a transposed product halves the Ito order and makes the
+    # Stratonovich scheme converge to a different SDE when the Jacobian of g is not symmetric)
+    ctx.guard(c02.r02_2)
